@@ -96,7 +96,6 @@ theorem startOffsetLoop_spec (rp : Str) : ∀ (fuel : Nat) (l : Str) (n : Nat), 
 theorem extract_prefix (line : Str) (pos : Int) (o : Opts) (r : Result) (h : extract line pos o = some r)
     (hp : o.pfx ≠ []) :
     (line.drop r.start).take o.pfx.length = o.pfx ∧ r.start + o.pfx.length ≤ r.location := by
-  have hcons := extract_consistent line pos o r h
   unfold extract at h
   simp only at h
   generalize hp0 : (min (line.length : Int) (max 0 pos)).toNat = p0 at h
@@ -121,7 +120,7 @@ theorem extract_prefix (line : Str) (pos : Int) (o : Opts) (r : Result) (h : ext
     simp only at h
     split at h
     · cases h
-      simp only
+      simp only [hne, Bool.false_eq_true, if_false]
       -- the reversed left part is pre ++ (pfx.reverse ++ rr): so line.take p = rr.reverse ++ pfx ++ pre.reverse
       have htake : line.take p = rr.reverse ++ (o.pfx ++ pre.reverse) := by
         have := congrArg List.reverse hl
@@ -134,13 +133,17 @@ theorem extract_prefix (line : Str) (pos : Int) (o : Opts) (r : Result) (h : ext
         simp only [List.length_take, List.length_append, List.length_reverse] at this; omega
       constructor
       · -- line[start - |pfx| : start] = pfx
-        have h1 : line.drop (start - o.pfx.length) = (line.take p).drop (start - o.pfx.length) ++ line.drop p := by
-          conv => lhs; rw [← List.take_append_drop p line]
-          rw [List.drop_append_of_le_length (by simp only [List.length_take]; omega)]
-        rw [h1, htake]
-        have : start - o.pfx.length = rr.reverse.length := by simp only [List.length_reverse]; omega
-        rw [this, List.drop_left', List.append_assoc, List.take_left']
+        have hline : line = rr.reverse ++ (o.pfx ++ (pre.reverse ++ line.drop p)) := by
+          have h0 := (List.take_append_drop p line).symm
+          rw [htake] at h0
+          simpa [List.append_assoc] using h0
+        have hs : start - o.pfx.length = rr.reverse.length := by simp only [List.length_reverse]; omega
+        rw [hs]
+        calc (line.drop rr.reverse.length).take o.pfx.length
+            = ((rr.reverse ++ (o.pfx ++ (pre.reverse ++ line.drop p))).drop rr.reverse.length).take o.pfx.length := by rw [← hline]
+          _ = o.pfx := by simp
       · obtain ⟨k, hk, hkle⟩ := (stripLeading_spec ((line.take p).drop (start + rest.length))).1
+        have htl : (line.take p).length = p := by simp only [List.length_take]; omega
         have hrawlen : ((line.take p).drop (start + rest.length)).length = p - (start + rest.length) := by
           simp only [List.length_drop, List.length_take]; omega
         have habl : (stripLeading ((line.take p).drop (start + rest.length))).length = p - (start + rest.length) - k := by
